@@ -29,8 +29,21 @@ def jdefault(o):
     return repr(o)
 
 
+def _norm(o):
+    if isinstance(o, dict):
+        return {(('hex:' + bytes(k).hex()) if isinstance(k, (bytes, bytearray, memoryview)) else str(k)): _norm(v)
+                for k, v in o.items()}
+    if isinstance(o, (list, tuple)):
+        return [_norm(x) for x in o]
+    if isinstance(o, (bytes, bytearray, memoryview)):
+        return 'hex:' + bytes(o).hex()
+    if isinstance(o, (set, frozenset)):
+        return sorted(_norm(x) for x in o)
+    return o
+
+
 def canon(obj) -> str:
-    return json.dumps(obj, sort_keys=True, default=jdefault, separators=(',', ':'))
+    return json.dumps(_norm(obj), sort_keys=True, default=jdefault, separators=(',', ':'))
 
 
 def innermost_ndn_frame(exc: BaseException) -> str:
